@@ -26,11 +26,17 @@ else (escapes `parse()`) -/
 inductive Exc
   | lineTooLong | badStatusLine | badRequestLine | unknownProtocol | badMethod | prematureClosure
   | tooManyHeaders | invalidHeader | invalidBody | badChunk     -- HTTPException family
-  | valueError | unicodeDecodeError                               -- not HTTPException
+  | valueError | unicodeDecodeError                               -- ValueError family
+  | runtimeError                                                   -- neither (generator raised StopIteration)
   deriving DecidableEq, Repr
 
+/-- `ValueError` and its subclass `UnicodeDecodeError` -/
+def Exc.isVE : Exc → Bool
+  | .valueError | .unicodeDecodeError => true
+  | _ => false
+
 def Exc.isHttp : Exc → Bool
-  | .valueError | .unicodeDecodeError => false
+  | .valueError | .unicodeDecodeError | .runtimeError => false
   | _ => true
 
 /-! ### searching -/
